@@ -40,7 +40,7 @@
    are outside the model). *)
 From Coq Require Import List ZArith Bool.
 From GoHls Require Import Model.Mux Proofs.MuxStream Proofs.MuxLift Proofs.MuxWindow Proofs.MuxHistory
-  Proofs.MuxPlaylist Proofs.MuxSamples Proofs.MuxLog Proofs.MuxLogStep Proofs.MuxLogTS Proofs.MuxPartIds Proofs.MuxChain.
+  Proofs.MuxPlaylist Proofs.MuxSamples Proofs.MuxLog Proofs.MuxLogStep Proofs.MuxLogTS Proofs.MuxPartIds Proofs.MuxChain Proofs.MuxRAStart Proofs.MuxAuditAdds.
 Import ListNotations.
 Local Open Scope Z_scope.
 
@@ -183,3 +183,11 @@ Theorem c01_base_times_nonvacuous : exists m0 s P Q B,
   /\ (p_base P, map s_dur (p_samples P), p_base Q) = (900000, [9000; 9000], 918000).
 Proof. exact chain_example. Qed.
 Print Assumptions c01_base_times_nonvacuous.
+
+(* a write touches no other track's look-ahead unit: with c01_write_appends_exactly_the_lookahead_unit ("the
+   written unit becomes the look-ahead") the unit a later write of track j appends is the one track j wrote last *)
+Theorem c01_write_leaves_other_lookaheads : forall m ti t ra pc smp0 m',
+  nth_error (m_tracks m) ti = Some t -> fmp4WriteSample m ti ra pc smp0 = (m', Ok tt) ->
+  forall j, j <> ti -> pending m' j = pending m j.
+Proof. exact write_leaves_other_lookaheads. Qed.
+Print Assumptions c01_write_leaves_other_lookaheads.
